@@ -32,6 +32,7 @@ type check struct {
 	cases  []caseT
 	nMark  int64
 	tier   string
+	svgs   []string // SVG documents with reference graphs among their definitions
 }
 
 func init() { engine.Register(&check{}) }
@@ -100,7 +101,7 @@ var menu = []decl{
 	d("display:table-footer-group"), dc("display:table-cell"), d("display:table-column"), d("display:table-column-group"), d("display:table-caption"),
 	dc("display:flex"), d("display:inline-flex"), dc("display:grid"), d("display:inline-grid"), dc("display:contents"), d("display:flow-root"),
 	dc("float:left"), d("float:right"), dc("position:absolute"), d("position:fixed"), d("position:relative;top:3px"),
-	d("width:0"), d("font-size:0"), d("line-height:0"), dc("height:0"), d("margin:-20px"), d("min-width:500px"), d("width:200%"), d("height:15px"),
+	d("width:0"), dc("font-size:0"), d("line-height:0"), dc("height:0"), d("margin:-20px"), dc("min-width:500px"), dc("width:200%"), d("height:15px"),
 	dc("break-before:page"), d("break-before:left"), d("break-after:avoid"), dc("break-inside:avoid"), d("break-after:page"), d("break-before:avoid"),
 	dc("columns:2"), d("column-span:all"), dc("overflow:hidden"), d("direction:rtl"), d("white-space:pre"), d("white-space:nowrap"), d("hyphens:auto"),
 	d("text-align:justify"), d("content:counter(c)"), d("content:target-counter(attr(href),page)"), d("content:string(t)"), d("content:element(h)"),
@@ -143,6 +144,12 @@ func (c *check) Init(tier string, seed int64) engine.Space {
 	c.markup = engine.StrSpace{Name: "markup", Alphabet: markupTokens, MaxLen: mlen}
 	c.nMark = c.markup.Count()
 	c.cases = c.cases[:0]
+	// SVG reference graphs: every graph on 2 ids (thorough: 3) for each referencing construct,
+	// embedded inline and as an <img>
+	c.svgs = svgRefDocs(tier == "thorough")
+	for i := range c.svgs {
+		c.cases = append(c.cases, caseT{fam: 'g', sk: i})
+	}
 	nslots := 6
 	// level 0 and 1 on every configuration
 	for cfg := range configs {
@@ -212,6 +219,12 @@ func (c *check) build(cs *caseT) (html string, o render.Options, features []stri
 	cfg := configs[cs.cfg]
 	o = render.Options{Hints: cfg.hints, Engine: cfg.engine, Zoom: cfg.zoom, PageBound: 60}
 	features = []string{"cfg:" + cfg.name}
+	if cs.fam == 'g' {
+		html = "<style>" + cfg.page + " html,body{font-family:ahem;font-size:10px;line-height:1}</style><p>ab " + c.svgs[cs.sk] + " cd</p>"
+		o.HTML = html
+		features = append(features, "svg-refs")
+		return
+	}
 	if cs.fam == 'm' {
 		html = "<style>" + cfg.page + " html,body{font-family:ahem;font-size:10px;line-height:1}</style>" + c.markup.At(cs.mi)
 		o.HTML = html
@@ -329,4 +342,59 @@ func (c *check) Describe(u int64) any {
 	cs := c.caseOf(u)
 	html, o, feats := c.build(&cs)
 	return map[string]any{"html": html, "hints": o.Hints, "engine": o.Engine, "zoom": o.Zoom, "features": feats}
+}
+
+// svgRefDocs enumerates reference graphs among SVG definitions: each of n nodes refers to
+// nothing, itself, another node or a missing id, for every referencing construct.
+func svgRefDocs(three bool) []string {
+	n := 2
+	if three {
+		n = 3
+	}
+	ids := []string{"a", "b", "c"}[:n]
+	type kind struct{ name, open, attr, body, use string }
+	kinds := []kind{
+		{"linearGradient", "linearGradient", "href", `<stop offset="0" stop-color="red"/>`, `<rect width="8" height="8" fill="url(#a)"/>`},
+		{"radialGradient", "radialGradient", "href", `<stop offset="1" stop-color="blue"/>`, `<rect width="8" height="8" fill="url(#a)"/>`},
+		{"pattern", "pattern width=\"4\" height=\"4\"", "href", `<rect width="2" height="2"/>`, `<rect width="8" height="8" fill="url(#a)"/>`},
+		{"clipPath", "clipPath", "clip-path", `<rect width="4" height="4"/>`, `<rect width="8" height="8" clip-path="url(#a)"/>`},
+		{"mask", "mask", "mask", `<rect width="4" height="4" fill="white"/>`, `<rect width="8" height="8" mask="url(#a)"/>`},
+		{"marker", "marker markerWidth=\"2\" markerHeight=\"2\"", "marker-start", `<path d="M0 0L2 1L0 2z"/>`, `<path d="M1 1L7 7" stroke="black" marker-start="url(#a)"/>`},
+		{"use", "g", "", `<rect width="3" height="3"/>`, `<use href="#a"/>`},
+	}
+	targets := append([]string{""}, ids...)
+	targets = append(targets, "zz")
+	var out []string
+	total := 1
+	for i := 0; i < n; i++ {
+		total *= len(targets)
+	}
+	for _, k := range kinds {
+		for g := 0; g < total; g++ {
+			var defs strings.Builder
+			x := g
+			for i := 0; i < n; i++ {
+				t := targets[x%len(targets)]
+				x /= len(targets)
+				ref, inner := "", k.body
+				if t != "" {
+					if k.name == "use" {
+						inner += `<use href="#` + t + `"/>`
+					} else if k.attr == "href" {
+						ref = ` href="#` + t + `"`
+					} else {
+						ref = ` ` + k.attr + `="url(#` + t + `)"`
+					}
+				}
+				tag := strings.Fields(k.open)[0]
+				fmt.Fprintf(&defs, `<%s id="%s"%s>%s</%s>`, k.open, ids[i], ref, inner, tag)
+			}
+			svg := `<svg xmlns="http://www.w3.org/2000/svg" xmlns:xlink="http://www.w3.org/1999/xlink" width="10" height="10"><defs>` + defs.String() + `</defs>` + k.use + `</svg>`
+			out = append(out, svg)
+			if g%3 == 0 { // also as an image resource
+				out = append(out, `<img src="data:image/svg+xml;base64,`+base64.StdEncoding.EncodeToString([]byte(svg))+`">`)
+			}
+		}
+	}
+	return out
 }
